@@ -307,6 +307,8 @@ def cases(ctx):
         for tool in ("cnfgen", "pbgen"):
             if tool == "pbgen" and "-T" in argv:
                 continue
+            if tool == "pbgen" and tier == "quick" and rng.random() > 0.35:
+                continue
             out.append(argv_case({"tool": tool, "argv": argv}))
     # mutational fuzz: valid command lines with one or two random edits (token deleted / duplicated / inserted /
     # two tokens swapped); every outcome must still be one of the three clean ones
